@@ -23,6 +23,9 @@ type Mutex struct {
 
 func (m *Mutex) Lock() {
 	if rt.CurMode == rt.Free {
+		if h := rt.FreeLockHook; h != nil {
+			h(m)
+		}
 		m.real.Lock()
 		return
 	}
